@@ -683,6 +683,18 @@ func (dr *dirRepo) gc() error {
 	if *dr.conf.Storage.GC.EmptyRepo && len(dr.index.Manifests) == 0 && dr.uploads.IsEmpty() {
 		errDir := func() error {
 			errs := []error{}
+			// a directory holding anything else, e.g. nested repositories, keeps its index and layout files
+			entries, err := os.ReadDir(dr.path)
+			if err != nil {
+				return err
+			}
+			for _, entry := range entries {
+				switch entry.Name() {
+				case uploadDir, blobsDir, indexFile, layoutFile:
+				default:
+					return fmt.Errorf("repo directory %s is not empty", dr.path)
+				}
+			}
 			for _, dir := range []string{
 				filepath.Join(dr.path, uploadDir),
 				filepath.Join(dr.path, blobsDir, "sha256"),
